@@ -457,18 +457,58 @@ func (c *Ctx) exprWriters(r *Report) {
 	general := c.pkgFunc(pkgExpr, "Expr")
 	unm := c.method(pkgExpr, "Expression", "UnmarshalJSON")
 	oa := c.originAnalysis()
+	var allowed func(fn *ssa.Function, base ssa.Value, depth int) (string, bool)
+	allowed = func(fn *ssa.Function, base ssa.Value, depth int) (string, bool) {
+		if fn == general {
+			return "constructor", true
+		}
+		os := oa.origins(base, map[ssa.Value]bool{})
+		if os.onlyFresh() {
+			return "written on a fresh node", true
+		}
+		why := ""
+		for o := range os {
+			switch {
+			case o == "fresh" || o == "nil":
+				continue
+			case fn == unm && unm != nil && o == "recv:"+fnName(unm):
+				why = "decoder writes its receiver"
+				continue
+			}
+			// a parameter (or receiver) of a private helper: every caller must hand over a node it may write
+			idx := -1
+			for i, p := range fn.Params {
+				if o == "param:"+fnName(fn)+"."+p.Name() || (i == 0 && fn.Signature.Recv() != nil && o == "recv:"+fnName(fn)) {
+					idx = i
+				}
+			}
+			if idx < 0 || depth >= 3 {
+				return "", false
+			}
+			sites, ok := c.privateHelper(fn)
+			if !ok {
+				return "", false
+			}
+			for _, cs := range sites {
+				if idx >= len(cs.Call.Args) {
+					return "", false
+				}
+				w, ok := allowed(cs.Parent(), cs.Call.Args[idx], depth+1)
+				if !ok {
+					return "", false
+				}
+				why = "helper of " + fnName(cs.Parent()) + " (" + w + ")"
+			}
+		}
+		return why, true
+	}
 	for _, fs := range c.storesToFields(fields...) {
 		fa := fs.st.Addr.(*ssa.FieldAddr)
 		os := oa.origins(fa.X, map[ssa.Value]bool{})
 		key := fnName(fs.fn) + "|" + fs.field.Name()
-		switch {
-		case os.onlyFresh():
-			r.ok(rule, key, c.instrPos(fs.st), "written on a fresh node")
-		case fs.fn == unm:
-			r.ok(rule, key, c.instrPos(fs.st), "decoder writes its receiver")
-		case fs.fn == general:
-			r.ok(rule, key, c.instrPos(fs.st), "constructor")
-		default:
+		if why, ok := allowed(fs.fn, fa.X, 0); ok {
+			r.ok(rule, key, c.instrPos(fs.st), why)
+		} else {
 			r.bad(rule, key, c.instrPos(fs.st), fmt.Sprintf("%s writes field %s of an existing Expression (origins %v): expression trees must not be modified after construction", fnName(fs.fn), fs.field.Name(), os.list()))
 		}
 	}
